@@ -482,3 +482,31 @@ def separable_state(r, dims, nterms, vec_kind='haar', weight_kind='dirichlet'):
     rho = sum(w * np.outer(v, v.conj()) for w, v in zip(p, vecs))
     rho = (rho + rho.conj().T) / 2
     return rho / np.trace(rho).real, vecs, p
+
+
+# --------------------------------------------------------------------------------------------- memory layouts
+LAYOUTS = ['C', 'F', 'strided', 'readonly']
+
+
+def with_layout(a, layout):
+    """the same array (equal values, dtype, shape) in a different memory layout; value semantics must not depend on it"""
+    a = np.asarray(a)
+    if layout == 'F':
+        return np.asfortranarray(a) if a.ndim >= 2 else a[::1]
+    if layout == 'strided':
+        if a.ndim == 0:
+            return a
+        big = np.zeros(tuple(2 * s for s in a.shape), dtype=a.dtype)
+        sl = tuple(slice(1, None, 2) for _ in a.shape)
+        big[sl] = a
+        return big[sl]
+    if layout == 'reversed':  # negative strides
+        if a.ndim == 0:
+            return a
+        sl = tuple(slice(None, None, -1) for _ in a.shape)
+        return np.ascontiguousarray(a[sl])[sl]
+    if layout == 'readonly':
+        b = a.copy()
+        b.flags.writeable = False
+        return b
+    return np.ascontiguousarray(a)
